@@ -344,6 +344,16 @@ func VerifHarness_C12_Chain() {
 	verifAssert("sibling-unaffected-by-method-line", verifAllDesignatedEqual(&sib.Common, key, wantSib))
 	verifAssert("second-converter-unaffected", verifAllDesignatedEqual(&m2.Common, key, want2))
 	verifAssert("converter-common-unaffected-by-method-line", verifAllDesignatedEqual(&c.Common, key, wantSib))
+	// settings that concern struct fields are remembered with the method they were written on - whatever their
+	// value - so that they can be rejected on methods that do not convert a struct themselves
+	fieldKey := k == "ignoreUnexported" || k == "update:ignoreZeroValueField" || k == "matchIgnoreCase" || k == "ignoreMissing"
+	if mp && fieldKey {
+		verifAssert("field-setting-recorded-where-written", len(m.RawFieldSettings) == 1)
+	}
+	if !mp || !fieldKey {
+		verifAssert("no-field-setting-recorded-otherwise", len(m.RawFieldSettings) == 0)
+	}
+	verifAssert("sibling-has-no-field-setting", len(sib.RawFieldSettings) == 0)
 	// nothing else moved away from the defaults
 	b, d, db := verifBools(&m.Common), verifDesignated(key), verifBools(&DefaultCommon)
 	for i := 0; i < 12; i++ {
